@@ -39,12 +39,12 @@ def plugin(name):
 
 
 def bounds(tier, seed):
-    return dict(h=HS, schemes=["EF", "RK2", "RK4"], modes=["diff", "w", "both", "off", "diff+hdiff"], flows=["stay", "east-into-deeper", "west-into-shallower"], steps=2)
+    return dict(h=HS, schemes=["EF", "RK2", "RK4"], modes=["diff", "w", "both", "both-opposed", "off", "diff+hdiff"], flows=["stay", "east-into-deeper", "west-into-shallower"], steps=2)
 
 
 def cases(tier, seed):
     out = []
-    for h, sch, mode, flow in itertools.product(HS, ["EF", "RK2", "RK4"], ["diff", "w", "both", "off", "diff+hdiff"], ["stay", "east", "west"]):
+    for h, sch, mode, flow in itertools.product(HS, ["EF", "RK2", "RK4"], ["diff", "w", "both", "both-opposed", "off", "diff+hdiff"], ["stay", "east", "west"]):
         out.append(dict(mode="plug", h=h, scheme=sch, vmode=mode, flow=flow))
     for h, vm, adv in itertools.product(HS, ["diff", "w", "both"], ["", "EF"]):
         out.append(dict(mode="reshuffle", h=h, vmode=vm, scheme=adv))
@@ -85,6 +85,8 @@ def plan(hcell, vmode):
             dd.append(0.0), dw.append(d)
         elif vmode == "both":
             dd.append(0.75 * d), dw.append(0.25 * d)
+        elif vmode == "both-opposed":  # w opposes the net displacement
+            dd.append(1.25 * d), dw.append(-0.25 * d)
         else:
             dd.append(0.0), dw.append(0.0)
     return np.array(Z0), np.array(dd), np.array(dw)
@@ -115,9 +117,9 @@ def run_plug(case):
     mods["forcing"] = fo = plugin("aforce").Forcing(mods, field="const", params=dict(a=vx / DT, b=0.0, L=100.0), w=list(dw / DT), record=False)
     Dz = 1.0 / (2 * DT)  # sqrt(2 Dz dt) = 1 m per unit normal deviate
     kw = dict(advection=case["scheme"], modules=mods)
-    if vmode in ("diff", "both", "diff+hdiff"):
+    if vmode in ("diff", "both", "both-opposed", "diff+hdiff"):
         kw["vertdiff"] = Dz
-    if vmode in ("w", "both"):
+    if vmode in ("w", "both", "both-opposed"):
         kw["vertical_advection"] = True
     if vmode == "diff+hdiff":
         kw["diffusion"] = 1e-9
@@ -130,6 +132,8 @@ def run_plug(case):
         seq.append(dd)
     tr.rng = Script(seq)
     st.append(X=np.full(n, x0), Y=np.full(n, 4.2), Z=Z0)
+    if flow == "stay":
+        st["active"][::5] = False  # settled particles: not moved horizontally, but the water column still bounds their depth
     viols, nt = [], 0
 
     def bad(sig, msg):
@@ -157,9 +161,9 @@ def run_plug(case):
             if abs(dd[k] + dw[k]) >= hcell:
                 continue  # outside the statement's condition (can happen in step 2 after moving to a shallower cell)
             z = exp[k]
-            if vmode in ("diff", "both", "diff+hdiff"):
+            if vmode in ("diff", "both", "both-opposed", "diff+hdiff"):
                 z = z + (2 * Dz / DT) ** 0.5 * dd[k] * DT
-            if vmode in ("w", "both"):
+            if vmode in ("w", "both", "both-opposed"):
                 z = z + (dw[k] / DT) * DT
             crossed = z < 0 or z > hcell
             if crossed:
